@@ -22,6 +22,10 @@
 (***************************************************************************)
 EXTENDS Naturals, Integers, Sequences, FiniteSets, TLC
 
+CONSTANT SelFixed   \* which getEnum layer B transcribes: FALSE = the pinned one (selector = the written name, index = the
+                    \* include found through a typedef); TRUE = with pending_fixes/C05-enum-sel-through-local-typedef.diff
+                    \* (the selector is a name of the file the index points at).  The check asks the real code which it is.
+
 -----------------------------------------------------------------------------
 (* Program model.                                                          *)
 (*  prog  = [files |-> <<FILE...>>]            file 1 is the main file     *)
@@ -371,23 +375,25 @@ ApplyRT(S, r) == LET fr == Top(S) IN
   [SetTop(S, [fr EXCEPT !.tds = @ \o r.tds]) EXCEPT !.ty = r.ty @@ @, !.used = @ \cup r.used, !.err = r.err]
 
 \* ---- getEnum: [e (<<file, def index>> or <<>>), idx, crash]; unbounded recursion in the code = crash here
-GE0 == [e |-> <<>>, idx |-> -1, crash |-> FALSE]
+GE0 == [e |-> <<>>, idx |-> -1, crash |-> FALSE, sel |-> ""]
 FirstIdx(p, f, name, K) == CHOOSE i \in DefIdx(p, f, name, K) : \A k \in DefIdx(p, f, name, K) : i <= k
 RECURSIVE GetEnum(_, _, _, _, _)
 GetEnum(p, S, f, name, fuel) ==
   IF fuel = 0 THEN [GE0 EXCEPT !.crash = TRUE]
   ELSE IF name \notin DOMAIN S.n2c[f] THEN GE0
-  ELSE IF S.n2c[f][name] = "Enum" THEN [GE0 EXCEPT !.e = <<f, FirstIdx(p, f, name, {"enum"})>>]
+  ELSE IF S.n2c[f][name] = "Enum" THEN [GE0 EXCEPT !.e = <<f, FirstIdx(p, f, name, {"enum"})>>, !.sel = name]
   ELSE IF S.n2c[f][name] = "Typedef" THEN
     LET td == Defs(p, f)[FirstIdx(p, f, name, {"typedef"})]
         k == TdKey(p, f, name)
-        r == IF k \in DOMAIN S.ty THEN S.ty[k].ref ELSE NoRef IN
+        r == IF k \in DOMAIN S.ty THEN S.ty[k].ref ELSE NoRef
+        local == GetEnum(p, S, f, TypeName(td.ty), fuel - 1)
+        localSel == IF local.e # <<>> /\ local.idx = -1 THEN [local EXCEPT !.sel = name] ELSE local IN
     IF r # NoRef
     THEN LET sub == GetEnum(p, S, Incs(p, f)[r.idx + 1], r.name, fuel - 1) IN
          IF sub.crash THEN sub
-         ELSE IF sub.e # <<>> THEN [e |-> sub.e, idx |-> r.idx, crash |-> FALSE]
-         ELSE GetEnum(p, S, f, TypeName(td.ty), fuel - 1)
-    ELSE GetEnum(p, S, f, TypeName(td.ty), fuel - 1)
+         ELSE IF sub.e # <<>> THEN [e |-> sub.e, idx |-> r.idx, crash |-> FALSE, sel |-> r.name]
+         ELSE localSel
+    ELSE localSel
   ELSE GE0
 EnumHas(p, e, v) == v \in Range(Defs(p, e[1])[e[2]].vals)
 
@@ -404,7 +410,7 @@ RId(p, S, f, key, segs) ==
   ELSE
     LET s0 == Join(SubSeq(segs, 1, n - 1))           \* SplitValue: [s0, v] and, with two dots, [s1, e, v]
         ge == GetEnum(p, S, f, s0, Fuel)
-        A == IF ge.e # <<>> /\ EnumHas(p, ge.e, v) THEN {Extra(TRUE, ge.idx, v, s0)} ELSE {}
+        A == IF ge.e # <<>> /\ EnumHas(p, ge.e, v) THEN {Extra(TRUE, ge.idx, v, IF SelFixed THEN ge.sel ELSE s0)} ELSE {}
         JB == {j \in DOMAIN Incs(p, f) : /\ Pre(p, Incs(p, f)[j]) = s0
                                          /\ v \in DOMAIN S.n2c[Incs(p, f)[j]]
                                          /\ S.n2c[Incs(p, f)[j]][v] = "Constant"}
